@@ -97,7 +97,7 @@ def hx(s):
 ASAN_ENV = 'abort_on_error=0:detect_leaks=1:allocator_may_return_null=1:exitcode=99:malloc_context_size=4'
 
 
-def run_driver(exe, script, timeout_case=20, shards=None, leaks=True):
+def run_driver(exe, script, timeout_case=20, shards=None, leaks=False, batch=None):
     """Run a script (text with many CASEs).  Sharded over the cores.  Returns
     the list of per-case result dicts in script order."""
     cases = split_cases(script)
@@ -114,7 +114,7 @@ def run_driver(exe, script, timeout_case=20, shards=None, leaks=True):
         fn = os.path.join(d, 's%d.txt' % i)
         with open(fn, 'w') as f:
             f.write('\n'.join(ch) + '\n')
-        procs.append(subprocess.Popen([exe, fn, str(timeout_case)], stdout=subprocess.PIPE, stderr=subprocess.PIPE, text=True, env=env))
+        procs.append(subprocess.Popen([exe, fn, str(timeout_case), str(batch if batch else (1 if leaks else 40))], stdout=subprocess.PIPE, stderr=subprocess.PIPE, text=True, env=env))
     res = {}
     for i, pr in enumerate(procs):
         so, se = pr.communicate(timeout=3600)
@@ -128,6 +128,11 @@ def run_driver(exe, script, timeout_case=20, shards=None, leaks=True):
                 r = json.loads(line)
             except Exception:
                 raise RuntimeError('driver printed bad JSON: ' + line[:500])
+            if r['id'] == '@exit':
+                # a worker that completed its cases did not exit cleanly (leak report): attribute to the last case
+                if r.get('after') in res:
+                    res[r['after']].setdefault('exit_problem', r)
+                continue
             res[r['id']] = r
     shutil.rmtree(d, ignore_errors=True)
     out = []
@@ -177,7 +182,9 @@ def script_cfg(slot, cfg):
 
 def simple_case(cid, g, strict, cfg, toks, allocmode=0, free_tree=True, walk=True):
     L = ['CASE %s' % cid, 'NEW 0'] + script_cfg(0, cfg) + script_read(0, g, strict)
+    L.append('VSET -1 0')
     L.append('PARSE 0 %d %d %s' % (allocmode, len(toks), ' '.join(str(c) for c in toks)))
+    L.append('COUNTERS')
     L.append('FREEG 0')
     if walk:
         L.append('WALK 0')
